@@ -332,6 +332,24 @@ void harness(void) {
         SYMX_ASSERT(rc == REF_OK && nv == VCNT && rcons == slen, "harness: the specification decoder reads the constructed stream in full");
     }
   #endif
+  #ifdef VCUT
+    /* C08: the specification stream cut at EVERY length k < slen (exact-size object: any read behind the cut is a bounds violation);
+       the decoder may report an error or values, it must not read outside and must not claim to have consumed more than it was given */
+    {
+        uint16_t k; symx_make_symbolic(&k, 2, "cut"); symx_assume(k < slen);
+        uint8_t* cin = exact(st, k);
+        val_t* cout = malloc(VCNT ? sizeof(val_t) * VCNT : 1); symx_assume(cout != NULL);
+        size_t ccons = 0;
+      #if VWIDE
+        carquet_status_t cs = carquet_delta_decode_int64(cin, k, cout, VCNT, &ccons);
+      #else
+        carquet_status_t cs = carquet_delta_decode_int32(cin, k, cout, VCNT, &ccons);
+      #endif
+        if (cs == CARQUET_OK) SYMX_ASSERT(ccons <= k, "delta decoder on a cut stream: bytes consumed <= bytes given");
+        free(cout); free(cin);
+        return;
+    }
+  #endif
     uint8_t* in = exact(st, slen);
     symx_observe(in, slen, "stream");
     val_t* out = malloc(VCNT ? sizeof(val_t) * VCNT : 1); symx_assume(out != NULL);
